@@ -277,6 +277,9 @@ func checkC07(c *core.Ctx) {
 			r6.Missing("serialize/views", fmt.Sprintf("only %d buffer views found", n))
 		}
 	}
+	currentFieldInConditions(c, c.Rule("R7.9", "T", "SerializeTo branches on the current value of a receiver field it also stores (= R6.9): otherwise the first and the second serialization of one layer differ"))
+	sizerMeasuresWhatWriterEmits(c, c.Rule("R7.10", "T", "the length of the slice a writer over *T returns depends only on inputs the sizer over *T depends on"))
+	coArgumentAgreement(c, c.Rule("R7.8", "T", "sizing and writing passes over the same object pair each field with the same metadata accessor (= R6.8)"))
 	r5 := c.Rule("R7.5", "T", "layout selectors agree: the comparisons on a receiver field by which SerializeTo chooses what to write are the comparisons by which the size helper it calls chooses how much to request")
 	{
 		n := 0
@@ -505,6 +508,79 @@ func checkC07(c *core.Ctx) {
 						}
 					}
 				}
+			}
+		})
+	}
+	// recycled memory is hidden state too: an object taken from a sync.Pool keeps what its last
+	// user wrote, so bytes the serializer skips (alignment gaps, absent fields) come from an
+	// earlier serialization unless the object is cleared first
+	for _, fn := range core.SortedFns(roots.SerReach) {
+		if !p.InModule(fn) {
+			continue
+		}
+		k := 0
+		core.Instrs(fn, func(ins ssa.Instruction) {
+			call, ok := ins.(*ssa.Call)
+			if !ok || core.StaticName(&call.Call) != "(*sync.Pool).Get" {
+				return
+			}
+			k++
+			// the object (through the type assertion) must be cleared before any other use:
+			// clear(x[:]) / *x = T{} as the first use on every path
+			cleared := false
+			var objs []ssa.Value
+			objs = append(objs, call)
+			for _, ref := range *call.Referrers() {
+				if ta, ok := ref.(*ssa.TypeAssert); ok {
+					objs = append(objs, ta)
+					for _, r2 := range *ta.Referrers() {
+						if ex, ok := r2.(*ssa.Extract); ok {
+							objs = append(objs, ex)
+						}
+					}
+				}
+			}
+			isObj := func(v ssa.Value) bool {
+				for _, o := range objs {
+					if v == o {
+						return true
+					}
+					if sl, ok := v.(*ssa.Slice); ok && sl.X == o && sl.Low == nil && sl.High == nil {
+						return true
+					}
+				}
+				return false
+			}
+			first := core.ForwardSearch(fn, ins, func(i ssa.Instruction) bool {
+				switch x := i.(type) {
+				case *ssa.TypeAssert, *ssa.Extract, *ssa.Slice, *ssa.DebugRef, *ssa.If, *ssa.Jump:
+					return false
+				case *ssa.Store:
+					if isObj(x.Addr) {
+						if _, isK := x.Val.(*ssa.Const); isK {
+							cleared = true
+						}
+						return true
+					}
+				case ssa.CallInstruction:
+					cc := x.Common()
+					if bi, ok := cc.Value.(*ssa.Builtin); ok && bi.Name() == "clear" && len(cc.Args) == 1 && isObj(cc.Args[0]) {
+						cleared = true
+						return true
+					}
+				}
+				for _, op := range i.Operands(nil) {
+					if *op != nil && isObj(*op) {
+						return true
+					}
+				}
+				return false
+			}, nil)
+			key := fmt.Sprintf("%s/pooled-memory-cleared#%d", core.FnKey(fn), k)
+			if first != nil && cleared {
+				r4.OK(key, p.InstrPos(ins), "the pooled object is cleared before its first use")
+			} else {
+				r4.Violate(key, p.InstrPos(ins), "the serializer takes working memory from a sync.Pool and does not clear it before use: bytes it does not overwrite (alignment gaps, fields that are absent) keep what an earlier serialization left there, so the output depends on which layers were written before, even into a fresh buffer", nil)
 			}
 		})
 	}
